@@ -1,6 +1,7 @@
 package main
 
 import (
+	"go/constant"
 	"go/ast"
 	"fmt"
 	"go/token"
@@ -340,6 +341,58 @@ func c12SliceSafe(fi *FnInfo, sl *ssa.Slice) (bool, string) {
 		}
 		if ms, ok := sl.X.(*ssa.MakeSlice); ok && desc(ms.Cap) != "" {
 			_ = ms
+		}
+	}
+	// the halves around i = strings.Index*(x, sep) (first or last occurrence), reachable only with i >= 0: 0 <= i < len(x)
+	{
+		idxOf := func(v ssa.Value) (ssa.Value, bool) {
+			if bo, ok := v.(*ssa.BinOp); ok && bo.Op == token.ADD {
+				if _, isK := bo.Y.(*ssa.Const); isK {
+					v = bo.X
+				}
+			}
+			call, ok := v.(*ssa.Call)
+			if !ok || len(call.Call.Args) != 2 || desc(call.Call.Args[0]) != xd {
+				return nil, false
+			}
+			switch calleeName(call) {
+			case "strings.Index", "strings.IndexByte", "strings.IndexRune", "strings.LastIndex", "strings.LastIndexByte":
+				return call, true
+			}
+			return nil, false
+		}
+		var iv ssa.Value
+		okForm := false
+		if sl.Low == nil && sl.High != nil && sl.Max == nil {
+			iv, okForm = idxOf(sl.High)
+			if _, plus := sl.High.(*ssa.BinOp); plus {
+				okForm = false
+			}
+		} else if sl.High == nil && sl.Low != nil && sl.Max == nil {
+			iv, okForm = idxOf(sl.Low)
+			// s[i+k:] needs i+k <= len(s): k is the separator's length (a one-byte separator for the Byte/Rune forms)
+			if bo, plus := sl.Low.(*ssa.BinOp); plus && okForm {
+				k, _ := bo.Y.(*ssa.Const)
+				call := iv.(*ssa.Call)
+				sepLen := int64(1)
+				if kc, isK := call.Call.Args[1].(*ssa.Const); isK && kc.Value != nil && kc.Value.Kind() == constant.String {
+					sepLen = int64(len(constant.StringVal(kc.Value)))
+				}
+				if k == nil || k.Value == nil || k.Int64() != sepLen {
+					okForm = false
+				}
+			}
+		}
+		if okForm && iv != nil {
+			id := desc(iv)
+			for _, l := range []string{"GE(" + id + ",const:0)", "NE(" + id + ",const:-1)", "GT(" + id + ",const:-1)"} {
+				if labelHas(g, l) {
+					return true, ""
+				}
+			}
+			if sd, sep, ok := indexCall(iv); ok && labelHas(g, "T(call:strings.Cut("+sd+","+sep+")#2)") {
+				return true, ""
+			}
 		}
 	}
 	// x[:0] (and x[:0:0]) is in range for every x, nil included
